@@ -858,12 +858,14 @@ func driveC20(c *h.Ctx) error {
 	c.Rule("(a) call histories on one Encoder per writer kind (binary, XML, JSON, text): every sequence of length <= 3 over a 9-call alphabet " +
 		"(direct write, nested Struct, Struct aborted by a panicking callback, Struct aborted by a writer panic, a message that sets version 1.4, " +
 		"a headerless version-gated value, a message that sets version 1.0 and then aborts, Clear, Bytes) x 4 probes, plus random histories of " +
-		"length 4..12 with random nested programs and random values of 15 harness types; each followed by Clear, Bytes, probe, Bytes and compared " +
-		"with the probe on a fresh encoder; (b) pairs of messages on one uncleared binary encoder; (c) 2..4 threads encoding/decoding harness values " +
-		"from cold plan caches under explicit schedules at cache-access granularity (all interleavings of two short threads + random schedules); " +
-		"(d) fresh child processes: sequential reference, shuffled order of first use, and many goroutines released together, over the OASIS " +
-		"corpus messages and harness values, encode and decode, TTLV/XML/JSON/text; a case is non-trivial unless it consists of Clear/Bytes only; " +
-		"distinct by canonical JSON of the case")
+		"length 4..12 with random nested programs and random values of 16 harness types; each followed by Clear, Bytes, probe, Bytes and compared " +
+		"with the probe on a fresh encoder; (b) pairs of messages on one uncleared binary encoder and on one Decoder; new encoders/decoders probed " +
+		"before and after messages of 7 versions went through other objects; sequences of 1..3 decodes on one Decoder (TTLV/XML/JSON, incl. wire " +
+		"forms of other versions); (c) 2..4 threads encoding/decoding harness values from cold plan caches under explicit schedules at " +
+		"cache-access granularity (all 70 interleavings of the first 4+4 accesses of two threads + random schedules); (d) fresh child processes: " +
+		"sequential reference, shuffled order of first use, and 2/8/32 goroutines released together, over the OASIS corpus messages and harness " +
+		"values, encode and decode, TTLV/XML/JSON/text; decode of the same buffer twice; a case is non-trivial unless it consists of Clear/Bytes " +
+		"only; distinct by canonical JSON of the case")
 	c20Register()
 	// first codec calls of the process: the reference for "new objects" below
 	var freshRefs []c20MsgOut
@@ -1014,6 +1016,11 @@ func driveC20(c *h.Ctx) error {
 		}
 		for k := 0; k < n; k++ {
 			m := c20DecMsg{Root: r.Intn(len(c20DecRoots)), Seed: r.U64(), Tag: 0x540700 + r.Intn(2)}
+			if dc.Enc != "ttlv" && c20DecRoots[m.Root].Kind() == reflect.Slice {
+				// a top-level slice is several documents in XML / JSON: the text readers take
+				// the first one only (reader level, outside this model)
+				m.Root = r.Intn(7)
+			}
 			if r.Chance(1, 4) {
 				m.Root = 1 // c20Gated
 				m.Shape = []string{"old", "new"}[r.Intn(2)]
